@@ -51,7 +51,7 @@ class RerunConverges(FlowBase):
         if not info.get("retried"):
             g["outc"][t] = [res.extra.get("status", "succeeded"), res.extra.get("result")]
             if info["status"] == "failed" and res.extra.get("action"):
-                lin = list(pre["state"]["routes"][res.extra["action"][1]])
+                lin = self.lineage_of(g, pre, res.extra["action"][1])
                 g.setdefault("failed_any", [])
                 if [t, lin] not in g["failed_any"]:
                     g["failed_any"].append([t, lin])
@@ -73,7 +73,7 @@ class RerunConverges(FlowBase):
         requested = []
         if reqs:
             for (t, r, reset) in reqs:
-                requested.append([t, list(pre["state"]["routes"][r])])
+                requested.append([t, self.lineage_of(g, pre, r)])
         else:
             requested = [list(x) for x in g["unhandled"]]
         # collapse requests that are downstream of other requests
